@@ -445,7 +445,14 @@ mod engine {
         o.max_samples = 8;
         o.add("grid_patterns", g.len() as u64);
         let mut sampled = 0usize;
+        let mut bad_patterns = 0usize;
         for (idx, p) in g.iter().enumerate() {
+            if bad_patterns >= 12 && only.is_none() {
+                // the check has failed many times over; histories that leak are slow (the ledger's live list grows),
+                // so the rest of this shard is not run
+                o.inc("shards_stopped_after_12_violating_patterns");
+                break;
+            }
             if let Some(x) = only {
                 if x != idx {
                     continue;
@@ -575,6 +582,9 @@ mod engine {
             } else {
                 "alloc-steady-retained".to_string()
             };
+            if !bad.is_empty() {
+                bad_patterns += 1;
+            }
             o.cell(format!("pat|{}|outcome={outcome}", p.desc()));
             if verbose || !bad.is_empty() || (idx / nshards) % 97 == 0 && sampled < 8 {
                 sampled += 1;
